@@ -149,7 +149,7 @@ vf_dtcmp(struct dt_dt_s a, struct dt_dt_s b)
  * contract:order:daisy); this spares some twenty 32-bit dividers per query,
  * which the SAT back end did not get through.  The replay uses the real
  * weekday. */
-#define WN	1024
+#define WN	2048
 static const unsigned char *vf_wd;
 static int vf_wd_base;
 
@@ -515,7 +515,8 @@ h_months(void)
 	struct dt_dtdur_s ite;
 	int step, dir, fkey, lkey, xkey, xd;
 
-	ASSUME(vy >= YLO && vy <= YHI && vy > REF_MIN_YEAR + 70 && vy < REF_MAX_YEAR - 70);
+	/* FIRST at least 75 years inside the supported range: the state may be 66 years and a step 5 years away */
+	ASSUME(vy >= YLO && vy <= YHI && vy > REF_MIN_YEAR + 75 && vy < REF_MAX_YEAR - 75);
 	ASSUME(ref_valid_ymd(vy, vm, vd));
 	ASSUME(vly >= vy - 60 && vly <= vy + 60);
 	ASSUME(ref_valid_ymd(vly, vlm, vld));
